@@ -341,6 +341,10 @@ inline std::string escape_literal(const std::string_view str)
         case '\r':
             res += "\\r";
             break;
+        case '?':
+            // avoid forming trigraphs (C++11/14), e.g. `??/` is a backslash
+            res += "\\?";
+            break;
         default:
             res += ch;
         }
